@@ -214,6 +214,13 @@ def isOneToOne (q : Quirks) (t : Ann) : Bool := !isContainer t && !isBuiltinType
 /-- `is_one_to_many_relationship` -/
 def isOneToMany (q : Quirks) (t : Ann) : Bool := isContainer t && !isBuiltinType q t && !isOptional q t
 
+/-- `container_type`: `None` unless `is_container`, then the origin -/
+def containerType (t : Ann) : Option Origin := if isContainer t then some (getOrigin t) else none
+
+/-- `is_iterable`: `is_one_to_many_relationship and hasattr(self.container_type, "__iter__")` — of the container
+classes (`container_types`) only `type` has no `__iter__` -/
+def isIterable (q : Quirks) (t : Ann) : Bool := isOneToMany q t && getOrigin t != .type
+
 /-- the seven classifications the property names -/
 structure Flags where
   builtin : Bool
